@@ -255,3 +255,37 @@ macro_rules! from_big {
 from_big!(conv_from_big_i64, i64);
 from_big!(conv_from_big_u8, u8);
 from_big!(conv_from_big_i8, i8);
+
+// host integer -> script value -> host integer: the identity for EVERY value of the type (values above the machine
+// word travel as big integers and have to come back)
+macro_rules! roundtrip_int {
+    ($name:ident, $t:ty) => {
+        conv_harness!($name, {
+            let v: $t = kani::any();
+            let r = <$t as ISV>::into_steelval(v);
+            kani::cover!((v as i128) > isize::MAX as i128 || (<$t>::MAX as i128) <= isize::MAX as i128, "largest values of the type");
+            match &r {
+                Ok(sv) => {
+                    let back = <$t as FSV>::from_steelval(sv);
+                    match &back {
+                        Ok(w) => {
+                            vassert!(*w == v, "a host integer came back from the script side with another value");
+                        }
+                        Err(_) => {
+                            vassert!(false, "a host integer that was passed to the script side cannot be extracted again");
+                        }
+                    }
+                    core::mem::forget(back);
+                }
+                Err(_) => {
+                    vassert!(false, "host integer refused");
+                }
+            }
+            core::mem::forget(r);
+        });
+    };
+}
+roundtrip_int!(conv_roundtrip_u64, u64);
+roundtrip_int!(conv_roundtrip_usize, usize);
+roundtrip_int!(conv_roundtrip_i64, i64);
+roundtrip_int!(conv_roundtrip_u32, u32);
